@@ -501,9 +501,12 @@ def _ac(op, w, xs):
         out.sort(key=lambda t: t.id)
     else:
         prev = None
+        ids = set(t.id for t in terms)
         for t in terms:
             if t is not prev:
                 out.append(t)
+                if w == 1 and t.op == 'not' and t.args[0].id in ids:
+                    return 0 if op == 'and' else 1        # x & !x, x | !x
             prev = t
     # known bits
     if not out:
@@ -760,7 +763,6 @@ def shl(w, a, s):
     """s is an int or Term of width w (callers zero-extend/truncate the amount)."""
     m = _mask(w)
     if not isinstance(s, Term):
-        s &= m
         if s >= w:
             return 0
         if not isinstance(a, Term):
@@ -790,7 +792,6 @@ def shl(w, a, s):
 def lshr(w, a, s):
     m = _mask(w)
     if not isinstance(s, Term):
-        s &= m
         if s >= w:
             return 0
         if not isinstance(a, Term):
